@@ -216,6 +216,10 @@ def check_entry(r: Result, s, entry, fi, tok, granted, queue, ps):
                 v = e.val
                 if v == ('param', tok) or (v is not None and v[0] == 'found' and v[3] == ('param', tok)):
                     removed_from.add(e.list)
+                # L.pop(L.index(token)) removes the token just as L.remove(token) does
+                ix = e.d.get('idx')
+                if e.op == 'pop' and ix is not None and ix[0] == 'index' and ix[1] == e.list and ix[2] == ('param', tok):
+                    removed_from.add(e.list)
             if is_mutation(e) and validated is None and first_mut_before is None:
                 first_mut_before = e
         if first_mut_before is not None:
